@@ -65,9 +65,13 @@ def srcindex():
     return subprocess.run(["python3", os.path.join(V, "tools", "src_index.py")], capture_output=True, text=True).stdout.strip()
 
 
+def covsum():
+    return subprocess.run(["python3", os.path.join(V, "tools", "cov_summary.py")], capture_output=True, text=True).stdout.strip()
+
+
 p = os.path.join(V, "DESIGN.md")
 s = open(p).read()
-for name, fn in (("fixes", fixes), ("open", open_findings), ("seeds", seeds), ("srcindex", srcindex)):
+for name, fn in (("fixes", fixes), ("open", open_findings), ("seeds", seeds), ("srcindex", srcindex), ("covsum", covsum)):
     pat = re.compile(r"(<!-- BEGIN:%s -->\n).*?(\n<!-- END:%s -->)" % (name, name), re.S)
     if not pat.search(s):
         print("marker missing:", name)
